@@ -106,6 +106,8 @@ func runC14(e *Env) {
 
 	// ---- operations
 	checkOperations(e, p, pk)
+	// the name tables are read as literals: nothing may rewrite them later
+	checkTablesFrozen(e, p, load.PkgRoot, "E4.frozen")
 
 	// ---- tags
 	checkTags(e, p, pk)
